@@ -377,6 +377,7 @@ def run(repo: Repo, ctx) -> None:
     _r8(repo, ctx)
     _r9(repo, ctx)
     _r10(repo, ctx)
+    _r11(repo, ctx)
 
 
 def _r6(repo: Repo, ctx) -> None:
@@ -826,3 +827,35 @@ def _relation_kind(f: FuncInfo, name: Optional[ast.AST]) -> str:
     if isinstance(name, ast.Subscript) and 'table_name' in norm(name):
         return 'pointer'
     return 'unknown'
+
+
+
+def _r11(repo: Repo, ctx) -> None:
+    """C07.R11 the components of a compound type get their rewrites.  A
+    compound type has no rewrite of its own; `try_type_rewrite` recurses
+    into what the type is made of.  The SQL compiler ranges over the
+    component types' tables (a subtype reached through `[IS Other]` is read
+    from its own table under the key of the intersection's component), so
+    both the members of a union and the members of an intersection have to
+    be visited -- otherwise the subtype's rewrite is never registered and
+    its table is read unfiltered."""
+    ctx.floor('C07.R11', 2)
+    f = repo.func(f'{QLC}.policies.try_type_rewrite')
+    ctx.saw(f)
+    arms = [n for n in ast.walk(f.node) if isinstance(n, ast.If)
+            and 'is_compound_type' in norm(n.test)]
+    if not arms:
+        raise AnalysisError('C07.R11: the compound-type arm of '
+                            'try_type_rewrite not found')
+    txt = ' '.join(norm(st) for st in arms[0].body)
+    recurses = 'try_type_rewrite(' in txt
+    for getter, what in (('get_union_of', 'union'),
+                         ('get_intersection_of', 'intersection')):
+        ctx.ob('C07.R11', f'try_type_rewrite:compound-members={what}',
+               recurses and f'.{getter}(' in txt,
+               f'try_type_rewrite does not descend into the members of an '
+               f'{what} type ({getter}): a type that is only reached as such '
+               f'a member (Doc[IS Tagged] reads TaggedDoc) never gets its '
+               f'rewrite registered and its table is read unfiltered',
+               f'{f.module.rel()}:{arms[0].lineno}',
+               sample=f'{getter} members visited')
